@@ -576,6 +576,12 @@ async fn port_task<A: NetworkAddress + PtpTargetAddress>(
     loop {
         let port_in_bmca = port_task_receiver.recv().await.unwrap();
 
+        // Clear out old tlvs if we are not in the master state, so we don't keep em too
+        // long.
+        if !port_in_bmca.is_master() {
+            tlv_forwarder.empty()
+        }
+
         // handle post-bmca actions
         let (mut port, actions) = port_in_bmca.end_bmca();
 
@@ -698,7 +704,7 @@ async fn ethernet_port_task(
 
         // Clear out old tlvs if we are not in the master state, so we don't keep em too
         // long.
-        if port_in_bmca.is_master() {
+        if !port_in_bmca.is_master() {
             tlv_forwarder.empty()
         }
 
